@@ -1044,6 +1044,14 @@ class Interp:
                 pass
             return self._native(_BINOPS[op], [a, b], {})
         ka, kb = kind_of(a), kind_of(b)
+        if (isinstance(a, SV) and kb is None and b is not None and not isinstance(b, (str, SymStr))) or \
+                (isinstance(b, SV) and ka is None and a is not None and not isinstance(a, (str, SymStr))):
+            nm = {ast.Add: "add", ast.Sub: "sub", ast.Mult: "mul", ast.Div: "truediv", ast.Pow: "pow"}.get(op)
+            obj, other, refl = (b, a, True) if isinstance(a, SV) else (a, b, False)
+            if nm is not None:
+                it = _lookup_class_attr(type(obj), "__%s%s__" % ("r" if refl else "", nm))
+                if it is not None and isinstance(it[0], types.FunctionType):
+                    return self._call_function(it[0], [obj, other], {}, defcls=it[1])
         if op is ast.Add and (isinstance(a, (str, SymStr)) or ka == "name") and (isinstance(b, (str, SymStr)) or kb == "name"):
             return SymStr((a, b))     # string concatenation with a symbolic name: opaque string
         if op is ast.Mod and isinstance(a, str):
@@ -1195,6 +1203,12 @@ class Interp:
             if isinstance(r, bool):
                 return r if op is ast.Eq else (not r)
             return SV(r if op is ast.Eq else z3.Not(r), "bool")
+        for x, y, flip in ((a, b, False), (b, a, True)):
+            if isinstance(y, float) and y in (float("inf"), float("-inf")) and isinstance(x, SV) and x.k in ("int", "real"):
+                # every real is strictly between -inf and +inf
+                pos = y > 0
+                o = {ast.Lt: ast.Gt, ast.Gt: ast.Lt, ast.LtE: ast.GtE, ast.GtE: ast.LtE}[op] if flip else op
+                return (o in (ast.Lt, ast.LtE)) if pos else (o in (ast.Gt, ast.GtE))
         ka, kb = kind_of(a), kind_of(b)
         if ka in (None, "name") or kb in (None, "name"):
             if a is None or b is None:
@@ -1344,7 +1358,7 @@ class Interp:
             setattr(obj, attr, v)
             self.path.writes.append((obj, attr, v))
             return
-        if is_symbolic(v):
+        if is_symbolic(v) and not isinstance(v, (SymObj, NativeModel)):
             raise Unsupported("store of symbolic value into concrete %s.%s" % (type(obj).__name__, attr))
         try:
             setattr(obj, attr, v)
